@@ -11,7 +11,6 @@ import os, json, shutil
 from vlib import *
 import conc
 
-WORKERS = 4          # builder rules round 2: at most 4 TLC workers per run
 ASSUMPTIONS = [
     "qsbr: x86-TSO memory model; the variant compiled for CAA_BITS_PER_LONG == 64 (single counter increment, one wait_for_readers pass); "
     "the two-phase < 64-bit variant is not compiled on this platform and is neither modelled nor bound",
@@ -20,7 +19,8 @@ ASSUMPTIONS = [
     "qsbr: plain accesses (list surgery under rcu_registry_lock, the thread's own reads of its TLS word, the updater's own reads of gp.ctr) "
     "are folded into the adjacent logged step; compiler barriers are honoured by the compiler (not modelled)",
     "qsbr bounds: <= 3 threads, <= 2 grace periods per updater, store buffers <= 2 entries (TLC); RCU_QS_ACTIVE_ATTEMPTS = "
-    "URCU_WAIT_ATTEMPTS = 2 in the driver build and in the spec; futex ENOSYS fallback (compat_futex) not covered",
+    "URCU_WAIT_ATTEMPTS = 2 (C02 also RCU_QS_ACTIVE_ATTEMPTS = 1) in the driver build and in the spec; spurious/EINTR budget <= 2 per execution; "
+    "futex ENOSYS: every futex call fails (compat_futex_async polling), not a mix of working and failing calls",
 ]
 
 
@@ -33,34 +33,211 @@ def qsbr_program(sc):
     return "\n".join(out) + "\n"
 
 
-def qsbr_component(fault_budget=0, skip=(), weak=(), sbmax=None):
-    env = {}
+def qsbr_component(fault_budget=0, skip=(), weak=(), sbmax=None, qs=2, wa=2, enosys=False):
+    """qs / wa: RCU_QS_ACTIVE_ATTEMPTS / URCU_WAIT_ATTEMPTS of the driver build and of the spec (1: the futex sleep path is taken
+    at the first unsuccessful scan, which makes seeded schedules reach FUTEX_WAIT often)"""
+    env = {"VRT_FUTEX_ENOSYS": 1} if enosys else {}      # futex(2) unavailable: futex_noasync() falls back to compat_futex_async()
     if fault_budget:
         env["VRT_SPURIOUS"] = (fault_budget + 1) // 2; env["VRT_EINTR"] = fault_budget // 2
-    name = "qsbr" + ("_f%d" % fault_budget if fault_budget else "") + ("".join("_no_" + s for s in skip)) + ("".join("_weak_" + s for s in weak))
+    name = "qsbr" + ("_f%d" % fault_budget if fault_budget else "") + ("".join("_no_" + s for s in skip)) + ("".join("_weak_" + s for s in weak)) + ("_q%d" % qs if qs != 2 else "") + ("_w%d" % wa if wa != 2 else "") + ("_enosys" if enosys else "")
+    env["QSBR_VARIANT"] = name      # ignored by the driver; lets replay() rebuild the same variant from a violation's meta.json
     return {
         "name": name, "spec": "UrcuQsbr", "driver": "d_qsbr.c", "trace": "UrcuQsbrTrace", "drvname": "d_" + name,
-        "defines": ["URCU_VERIF_RCU_QS_ACTIVE_ATTEMPTS=2", "URCU_VERIF_URCU_WAIT_ATTEMPTS=2"],
+        "defines": ["URCU_VERIF_RCU_QS_ACTIVE_ATTEMPTS=%d" % qs, "URCU_VERIF_URCU_WAIT_ATTEMPTS=%d" % wa],
         "invariants": ["GPGuarantee", "NoUseAfterFree", "RegistryExact", "CtrRange", "FaultBound"],
         "mc_invariants": ["DeadlockFree", "FutexRange", "LockOrder", "NoSleepWithRegistryLock"], "constraints": ["SBBound"],
         "consts": lambda sc: {"Threads": tla(set(sc["threads"])), "Prog": tla_fun(sc["threads"]), "SBMax": str(sbmax or sc.get("sbmax", 2)),
-                              "QSAttempts": "2", "WaitAttempts": "2", "FaultBudget": str(fault_budget),
+                              "QSAttempts": str(qs), "WaitAttempts": str(wa), "FaultBudget": str(fault_budget), "FutexMode": '"compat"' if enosys else '"sys"',
                               "Skip": tla(set(skip)), "Weak": tla(set(weak))},
         "program": qsbr_program, "env": env, "normalize": {"extra_fields": ("k",)}, "variant": name, "pct_len": 200, "heap": "8g",
     }
 
 
-def _with_workers(fn):
-    """TLC worker cap for every run started by this module (conc.model_check takes the count from VERIF_TLC_WORKERS)."""
-    def wrapped(ctx, *a, **kw):
-        old = os.environ.get("VERIF_TLC_WORKERS")
-        if not old or int(old) > WORKERS:
-            os.environ["VERIF_TLC_WORKERS"] = str(WORKERS)
-        try:
-            return fn(ctx, *a, **kw)
-        finally:
-            if old is None:
-                os.environ.pop("VERIF_TLC_WORKERS", None)
+QUICK = {"c01": ["qsbr_1r1u", "qsbr_selfsync2", "qsbr_2u_small"],
+         "c02_q1": ["qsbr_offon", "qsbr_2gp"], "c02": ["qsbr_selfsync"], "c02_enosys": ["qsbr_1r1u"],
+         "c15": ["qsbr_unreg", "qsbr_rereg", "qsbr_reg_small"]}
+THOROUGH = {"c01": ["qsbr_2gp", "qsbr_offon", "qsbr_selfsync", "qsbr_2u", "qsbr_2r"],
+            "c02_q1": ["qsbr_1r1u", "qsbr_2r_small"], "c02": ["qsbr_2gp", "qsbr_2u_small", "qsbr_2r_small"],
+            "c02_enosys": ["qsbr_2gp", "qsbr_2u_small"],
+            "c15": ["qsbr_reg", "qsbr_2r_small"]}
+
+
+_TAKEN = {}
+
+
+def _labels():
+    import re
+    txt = open(os.path.join(SPEC, "UrcuQsbr.tla")).read()
+    return sorted(set(re.findall(r"^(\w+)\(self\) == /\\ pc\[self\] = ", txt, re.M)))
+
+
+def _label_cover(ctx):
+    """vacuity guard: labels of UrcuQsbr through which TLC generated no state in any configuration of this run"""
+    taken = _TAKEN.get(id(ctx), set())
+    ctx.extra["qsbr_labels_total"] = len(_labels())
+    ctx.extra["qsbr_labels_not_taken_in_this_run"] = [l for l in _labels() if l not in taken]
+
+
+def _mc(ctx, comp, scn, timeout=3000):
+    sc = load_scenario(scn)
+    nv = len(ctx.violations)
+    r = conc.model_check(ctx, comp, sc, timeout=timeout)
+    log("  [TLC] %s/%s: %d distinct states, %.0fs, %s" % (scn, comp["name"], r.distinct, r.wall, "ok" if r.ok else (r.violation or r.error)))
+    zero = [k for k, v in r.coverage.items() if v[1] == 0 and k not in ("Terminating",)]      # no state generated through the action
+    ctx.extra.setdefault("qsbr_actions_never_taken", {})[scn + "/" + comp["name"]] = zero
+    _TAKEN.setdefault(id(ctx), set()).update(k for k, v in r.coverage.items() if v[1] > 0)
+    if len(ctx.violations) > nv:      # make the design-level counterexample replayable
+        json.dump({"kind": "tlc", "scenario": scn, "fault_budget": int(comp["consts"](sc)["FaultBudget"]), "qs": int(comp["consts"](sc)["QSAttempts"]), "enosys": "compat" in comp["consts"](sc)["FutexMode"], "driver": comp["driver"]},
+                  open(os.path.join(ctx.violations[-1]["replay"], "meta.json"), "w"), indent=1)
+    return r
+
+
+def _run(ctx, comp, scenarios, nseeds, nsim, full):
+    """TLC on every scenario, then code->spec (seeded SC and software-TSO executions of the real urcu-qsbr.c validated against
+    UrcuQsbr) and spec->code (TLC behaviours forced onto the real code).  full=False (quick tier): behaviours are replayed for
+    the TSO instance only (its behaviours include the SC ones)."""
+    comp = dict(comp, variant=comp["variant"] + "_" + ctx.pid.lower())      # generated module names are private to the calling check
+    only = os.environ.get("VERIF_SCEN")
+    scenarios = [s for s in scenarios if not only or s in only.split(",")]
+    for scn in scenarios:
+        if len(ctx.violations) >= conc.MAXV:
+            return
+        _mc(ctx, comp, scn)
+    wd = os.path.join(ctx.outdir, "work_" + comp["name"]); shutil.rmtree(wd, ignore_errors=True); os.makedirs(wd)
+    exe = build_driver(comp["drvname"], comp["driver"], defines=comp["defines"], tag=ctx.pid + "_" + comp["drvname"])
+    for scn in scenarios:
+        sc = load_scenario(scn)
+        for tso in (0, 1):
+            if len(ctx.violations) >= conc.MAXV:
+                break
+            seeds = [ctx.seed * 100003 + k for k in range(nseeds)]
+            runs, fails, pf = conc.run_batch(ctx, comp, exe, sc, tso, seeds, wd)
+            conc.report_failures(ctx, comp, fails)
+            if runs:
+                ctx.sample({"kind": "recorded execution of the real code (first events)", "scenario": scn, "tso": tso, "seed": runs[0][0],
+                            "events": [e for e in runs[0][1][:12]]})
+            conc.validate(ctx, comp, sc, tso, runs, wd, "tv_%s_%s_%d" % (scn, comp["name"], tso))
+            if nsim and (full or tso == 1) and len(ctx.violations) < conc.MAXV:
+                conc.spec_to_code(ctx, comp, exe, sc, tso, nsim, wd)
+        log("  [conf] %s/%s: traces validated so far %d, events %d, replays %d, violations %d" % (scn, comp["name"], ctx.traces, ctx.events, ctx.replays, len(ctx.violations)))
+        if not ctx.violations:        # the TLC logs of accepted trace validations are huge (the whole matched behaviour is printed): drop them
+            for tag in ["tv_%s_%s_%d" % (scn, comp["name"], t) for t in (0, 1)] + ["tvr_%s_%d" % (scn, t) for t in (0, 1)]:
+                shutil.rmtree(os.path.join(OUT, "tlc", tag), ignore_errors=True)
+    shutil.rmtree(wd, ignore_errors=True)
+    _label_cover(ctx)
+
+
+def selftest(ctx, scn="qsbr_1r1u"):
+    """Validator sanity (GUIDE 5.2a, run in the thorough tier): one recorded execution is accepted; the same execution with ONE
+    corrupted field (value loaded by the updater from a reader word / value stored to gp.ctr) must be rejected.  A validator that
+    accepts the corrupted trace is a machinery failure (exit 2), not a property violation."""
+    import copy
+    comp = qsbr_component(); comp = dict(comp, variant=comp["variant"] + "_" + ctx.pid.lower() + "_selftest")
+    sc = load_scenario(scn)
+    wd = os.path.join(ctx.outdir, "work_selftest"); shutil.rmtree(wd, ignore_errors=True); os.makedirs(wd)
+    exe = build_driver(comp["drvname"], comp["driver"], defines=comp["defines"], tag=ctx.pid + "_" + comp["drvname"])
+    runs, fails, pf = conc.run_batch(ctx, comp, exe, sc, 1, [ctx.seed * 100003 + k for k in range(6)], wd)
+    conc.report_failures(ctx, comp, fails)
+    c = conc.consts_for(comp, sc, 1, True); c["__spec__"] = comp["spec"]
+    mod = gen_trace_module(comp["trace"], comp["spec"], "TV_%s%s" % (scn, comp["variant"]), c, invariants=comp["invariants"])
+    done = 0
+    for seed, ev in runs:
+        n = normalize(ev, **comp["normalize"])
+        ks = [k for k, e in enumerate(n) if (e["op"] == "ld" and str(e["var"]).startswith("rctr.")) or (e["op"] == "st" and e["var"] == "gp_ctr")]
+        if not ks:
+            continue
+        tp = os.path.join(wd, "selftest.ndjson"); write_ndjson(tp, n)
+        v = validate_trace_file(mod, tp, tag="tv_selftest_%s_ok" % ctx.pid)
+        if not v.accepted:
+            raise RuntimeError("selftest: an unmodified recorded execution (seed %d) was not accepted: %s" % (seed, v.violation or v.error))
+        for k in ks[:2]:
+            m = copy.deepcopy(n); f = "r" if m[k]["op"] == "ld" else "a"; m[k][f] = m[k][f] + 2
+            write_ndjson(tp, m)
+            v = validate_trace_file(mod, tp, tag="tv_selftest_%s_bad" % ctx.pid)
+            if v.accepted:
+                raise RuntimeError("selftest: the trace validator accepted a corrupted execution (event #%d %s)" % (k + 1, json.dumps(m[k])))
+            done += 1
+        break
+    ctx.extra["qsbr_validator_selftest"] = "%d corrupted traces rejected" % done
+    shutil.rmtree(wd, ignore_errors=True)
+
+
+def run_c01(ctx):
+    """C01, qsbr part: GPGuarantee / NoUseAfterFree for leaders, merged waiters and callers that are registered readers."""
+    q = ctx.quick()
+    n, sim = (30, 12) if q else (1500, 300)
+    _run(ctx, qsbr_component(), QUICK["c01"] + ([] if q else THOROUGH["c01"]), n, sim, not q)
+    if not q:
+        selftest(ctx)
+
+
+def run_c02(ctx):
+    """C02, qsbr part: DeadlockFree with a budget of spurious / EINTR FUTEX_WAIT returns, lock order, Termination under fairness.
+    Two builds: RCU_QS_ACTIVE_ATTEMPTS = 1 (the updater goes to FUTEX_WAIT after the first unsuccessful scan: seeded schedules of the
+    real code reach the sleep / wake handshake in ~15 % of the runs instead of ~0.3 %) and = 2 (busy-wait round first)."""
+    q = ctx.quick()
+    n, sim = (30, 12) if q else (1000, 200)
+    _run(ctx, qsbr_component(fault_budget=2, qs=1), QUICK["c02_q1"] + ([] if q else THOROUGH["c02_q1"]), n, sim, not q)
+    _run(ctx, qsbr_component(fault_budget=2), QUICK["c02"] + ([] if q else THOROUGH["c02"]), n, sim, not q)
+    # futex(2) unavailable (ENOSYS): futex_noasync() -> compat_futex_async() polling loop, wake-ups are no-ops
+    _run(ctx, qsbr_component(qs=1, enosys=True), QUICK["c02_enosys"] + ([] if q else THOROUGH["c02_enosys"]), n, sim, not q)
+    liveness(ctx, ["qsbr_unreg", "qsbr_1r1u"] if q else ["qsbr_unreg", "qsbr_1r1u", "qsbr_offon", "qsbr_selfsync", "qsbr_2gp", "qsbr_2u_small"], fault_budget=1)
+    if not q:
+        liveness(ctx, ["qsbr_2gp"], fault_budget=1, qs=1)
+        liveness(ctx, ["qsbr_2gp"], fault_budget=0, qs=1, enosys=True)
+
+
+def run_c15(ctx):
+    """C15, qsbr part: register / unregister / re-register at any moment relative to running grace periods."""
+    q = ctx.quick()
+    n, sim = (30, 12) if q else (1500, 300)
+    _run(ctx, qsbr_component(), QUICK["c15"] + ([] if q else THOROUGH["c15"]), n, sim, not q)
+
+
+def liveness(ctx, scenarios, fault_budget=1, timeout=3000, qs=2, enosys=False):
+    """FairSpec => Termination (every synchronize_rcu() returns, every thread finishes) with NO state constraint."""
+    comp = qsbr_component(fault_budget=fault_budget, qs=qs, enosys=enosys)
+    for scn in scenarios:
+        if len(ctx.violations) >= conc.MAXV:
+            break
+        sc = load_scenario(scn)
+        c = conc.consts_for(comp, sc, True, False)
+        mod = gen_mc(sc, "live_" + comp["name"] + "_" + ctx.pid.lower(), c, cfg_lines=["SPECIFICATION FairSpec", "PROPERTY Termination", "CHECK_DEADLOCK FALSE"])
+        r = run_tlc(mod, timeout=timeout, heap="8g")
+        ctx.add_tlc(r, mod, {k: v for k, v in c.items() if len(v) < 200})
+        log("  [TLC liveness] %s: %d distinct states, %.0fs, %s" % (scn, r.distinct, r.wall, "ok" if r.ok else (r.violation or r.error)))
+        if r.violation:
+            d = ctx.viol_dir(); shutil.copy(r.log, os.path.join(d, "tlc.log"))
+            ctx.violation("TLC: %s violated in %s (FairSpec => Termination; lasso in tlc.log)" % (r.violation, mod), d)
+        elif not r.ok:
+            if r.error == "timeout":
+                ctx.notes.append("%s: liveness run timed out after %ds (not exhaustive)" % (mod, timeout))
             else:
-                os.environ["VERIF_TLC_WORKERS"] = old
-    return wrapped
+                raise RuntimeError("TLC failed on %s: %s\n%s" % (mod, r.error, r.out[-1500:]))
+
+
+def _replay(ctx, path):
+    meta = json.load(open(os.path.join(path, "meta.json")))
+    if meta.get("kind") == "tlc":       # design-level counterexample: re-run TLC on that configuration
+        _mc(ctx, qsbr_component(fault_budget=meta.get("fault_budget", 0), qs=meta.get("qs", 2), enosys=meta.get("enosys", False)), meta["scenario"])
+        log("replay of %s: %s" % (path, "violation reproduced" if ctx.violations else "no violation on the current tree"))
+        return
+    env = meta.get("env") or {}
+    # the build / fault variant: recorded in the driver environment (oracle failures) or in the trace module name (rejections)
+    v = str(env.get("QSBR_VARIANT", "")) or str(meta.get("trace_module", ""))
+    import re
+    m = re.search(r"_f(\d+)", v)
+    comp = qsbr_component(fault_budget=int(m.group(1)) if m else 0, qs=1 if "_q1" in v else 2, wa=1 if "_w1" in v else 2, enosys="_enosys" in v)
+    conc.replay(ctx, comp, path)
+
+
+replay_c01 = replay_c02 = replay_c15 = _replay
+
+
+def is_mine(path):
+    """True when the violation directory `path` was produced by this module (lets the coordinator dispatch --replay)."""
+    try:
+        meta = json.load(open(os.path.join(path, "meta.json")))
+    except Exception:
+        return False
+    return str(meta.get("scenario", "")).startswith("qsbr_") or meta.get("driver") == "d_qsbr.c"
